@@ -200,11 +200,11 @@ GROUPS += [
     },
     {
         "id": "C03.recv_gates", "property": ["C03", "C01"], "crate": "core",
-        "harnesses": ["c03_recv_response_"], "jobs": 2, "timeout_s": 1200, "mem_gb": 20,
+        "harnesses": ["c03_recv_response_"], "jobs": 1, "timeout_s": 1200, "mem_gb": 24,
         "functions": STRAT_FNS + STATE_FNS, "stubs": [NET_STUB],
         "bounds": "the composed receive step recv_response (validate, from, check_trace_id, in_round as wired by the real "
-                  "code) for an echo reply naming the sequence just below the round (previous round's last) / just beyond "
-                  "the 512-slot window, window (33434, 3); unwind 2",
+                  "code) for an echo reply naming the sequence just beyond the 512-slot window, window (33434, 3); unwind 2 "
+                  "(just below the round = previous round's last, 0 and 65535: thorough tier)",
     },
     # ------------------------------------------------------------------ C02
     {
@@ -339,7 +339,7 @@ GROUPS += [
     },
     {
         "id": "T.decision", "property": ["C03", "C01"], "crate": "core", "tier": "thorough",
-        "harnesses": ["t03_recv_decision", "t03_recv_response_"], "jobs": 4, "timeout_s": 600, "mem_gb": 14,
+        "harnesses": ["t03_recv_decision", "t03_recv_response_"], "jobs": 3, "timeout_s": 600, "mem_gb": 20,
         "functions": STRAT_FNS + ["TracerState::in_round"],
         "bounds": "the remaining 8 response-kind x payload x family combinations (all 18 reachable ones covered with the quick tier)",
     },
